@@ -13,6 +13,9 @@
 //!           perm <orders tried> <orders whose content differs>
 //!           pool <pools tried> <pools whose content differs>
 //!           hash <rebuilds of Parameters tried> <rebuilds whose content differs>
+//!           ford <record orders> <pools> <rebuilds> whose fragment index AS STORED differs from the first build's
+//!                (FNV-1a over (peptide index, m/z bits) in vector order, bucket size and min_value; the "content"
+//!                comparison sorts the fragment list and cannot see the stored order)
 //!
 //!   The records are rendered as FASTA text (`>acc description\nSEQ\n`), read by the real `Fasta::parse`, and
 //!   the database is built by the real `Builder::make_parameters` + `Parameters::build`.
@@ -30,7 +33,8 @@
 //!
 //!   db8t <k> <threads>*k <the arguments of db8>
 //!     -> panic
-//!      | ok <pre> <npep> {peptide as in db8}*npep  T <k> {<threads> <npep_t> <ndup_t> <nbad_t> <digest_t>}*k
+//!      | ok <pre> <npep> {peptide as in db8}*npep  T <k> {<threads> <npep_t> <ndup_t> <nbad_t> <digest_t> <stored_t>}*k
+//!        (stored_t: digest of the fragment index as stored, see `ford` of db8)
 //!   Block-boundary stream for the de-duplication of `reorder_peptides`: the same build inside rayon pools of
 //!   the listed sizes. `pre` = number of peptide forms handed to `reorder_peptides` (before de-duplication;
 //!   recomputed through the public API: `Fasta::digest`, `group_digests`, `Peptide::try_from/apply/reverse`).
@@ -43,6 +47,7 @@
 //!     -> panic
 //!      | ok <npep> {peptide as in db8}*npep F <nfrag> [frag=1: pairs]
 //!           shuf <orders tried> <that differ>  pool <pools tried> <that differ>  ksz <chunk sizes tried> <that differ>
+//!           ford <concatenation orders> <pools> <chunk sizes> whose fragment index AS STORED differs
 //!   The chunked PREFILTER path of sage-cli (`Runner::prefilter_peptides`) through the public API:
 //!   `Fasta::parse` -> `iter_chunks(k)` -> per chunk `Parameters::build` -> of each chunk's peptides a subset
 //!   (drop = 1: entry i of chunk c is dropped iff (7 i + 3 c + seed) % 4 == 0; the real prefilter keeps what
@@ -78,7 +83,11 @@ pub const INFO: Info = Info {
            window sometimes cutting the form list; directed cases: the two fixed C08 defects, palindromic / short \
            peptides whose reversal is a target, FASTAs without any digest (one protein below min_len, only tagged records while decoys are generated, empty \
            FASTA: the empty database, trivial); every case is also \
-           rebuilt 4 times from a fresh Parameters value (new HashMap seeds). db8t (block-boundary stream): FASTAs \
+           rebuilt 4 times from a fresh Parameters value (new HashMap seeds). fragment-tie stream (db8): peptides with I/L isomers, shared \
+           2-3 residue prefixes and shared tails, targets with their decoys, 0-2 missed cleavages, bucket sizes 2,4,8,16,64, \
+           min_ion_index 0-1: many equal-m/z fragments of different peptides straddling bucket boundaries; every db8 / db8t / \
+           chunkdb build also reports a digest of the fragment index AS STORED (vector order, bucket layout), compared \
+           across record orders, pools, repeated builds, concatenation orders, chunk sizes. db8t (block-boundary stream): FASTAs \
            of 3-peptide proteins over a pool of m distinct peptides plus single-peptide proteins, so that every form \
            is produced by up to four digest groups (N-terminal / internal / C-terminal / whole protein) and by its \
            reversed decoy: the sorted pre-merge vector is runs of equal keys; sizes chosen so that it has about \
@@ -253,7 +262,64 @@ fn fasta_text(recs: &[(String, String)]) -> String {
 
 fn build(p: &Parameters, recs: &[(String, String)]) -> IndexedDatabase {
     let fasta = Fasta::parse(fasta_text(recs), &p.decoy_tag, p.generate_decoys);
-    p.clone().build(fasta)
+    let mut db = p.clone().build(fasta);
+    if std::env::var("VERIF_C08_SIM").ok().as_deref() == Some("J") {
+        sim_fold_reduce_index(p, &mut db);
+    }
+    db
+}
+
+/// debugging aid only (VERIF_C08_SIM=J): rebuilds the fragment index the way seeded change C08-J does - the fragments
+/// are gathered into one buffer per worker (as many parts as the current pool has threads) and the buffers are
+/// joined smaller-onto-larger, so the order BEFORE the unstable sorts depends on the pool size - then the same
+/// sorts and bucket layout as `build_from_peptides`. Used to check that the stored-order digests see it.
+fn sim_fold_reduce_index(p: &Parameters, db: &mut IndexedDatabase) {
+    use rayon::prelude::*;
+    use sage_core::database::{PeptideIx, Theoretical};
+    use sage_core::ion_series::IonSeries;
+    let parts = rayon::current_num_threads().max(1);
+    let n = db.peptides.len();
+    let per = (n + parts - 1) / parts.max(1);
+    let mut bufs: Vec<Vec<Theoretical>> = Vec::new();
+    for c in 0..parts {
+        let mut b = Vec::new();
+        for idx in (c * per).min(n)..((c + 1) * per).min(n) {
+            let pep = &db.peptides[idx];
+            for kind in &p.ion_kinds {
+                for (ion_idx, ion) in IonSeries::new(pep, *kind).enumerate() {
+                    let keep = match ion.kind {
+                        Kind::A | Kind::B | Kind::C => (ion_idx + 1) > p.min_ion_index,
+                        Kind::X | Kind::Y | Kind::Z => pep.sequence.len().saturating_sub(1) - ion_idx > p.min_ion_index,
+                    };
+                    if keep {
+                        b.push(Theoretical { peptide_index: PeptideIx(idx as u32), fragment_mz: ion.monoisotopic_mass });
+                    }
+                }
+            }
+        }
+        bufs.push(b);
+    }
+    let mut acc: Vec<Theoretical> = Vec::new();
+    for b in bufs {
+        if b.len() > acc.len() {
+            let mut b = b;
+            b.extend(acc);
+            acc = b;
+        } else {
+            acc.extend(b);
+        }
+    }
+    acc.par_sort_unstable_by(|a, b| a.fragment_mz.total_cmp(&b.fragment_mz));
+    let min_value: Vec<f32> = acc
+        .par_chunks_mut(p.bucket_size)
+        .map(|chunk| {
+            let min = chunk[0].fragment_mz;
+            chunk.par_sort_unstable_by(|a, b| a.peptide_index.cmp(&b.peptide_index));
+            min
+        })
+        .collect();
+    db.fragments = acc;
+    db.min_value = min_value;
 }
 
 fn pos_code(p: Position) -> usize {
@@ -270,6 +336,9 @@ struct Content {
     npep: usize,
     frags: Vec<(u32, u32)>,
     minv: Vec<u32>,
+    /// FNV-1a digest of the fragment index AS STORED: (peptide index, m/z bits) in vector order, the bucket size
+    /// and `min_value` (the bucket layout). The multiset comparison above does not see the stored order.
+    stored: u64,
 }
 
 impl Content {
@@ -298,8 +367,17 @@ fn content(db: &IndexedDatabase) -> Content {
         }
     }
     let mut frags: Vec<(u32, u32)> = db.fragments.iter().map(|f| (f.peptide_index.0, f.fragment_mz.to_bits())).collect();
+    let mut stored: u64 = 0xcbf29ce484222325;
+    for (a, b) in &frags {
+        fnv(&mut stored, &a.to_le_bytes());
+        fnv(&mut stored, &b.to_le_bytes());
+    }
+    fnv(&mut stored, &(db.bucket_size as u64).to_le_bytes());
+    for m in &db.min_value {
+        fnv(&mut stored, &m.to_bits().to_le_bytes());
+    }
     frags.sort();
-    Content { peps: o.finish(), npep: db.peptides.len(), frags, minv: db.min_value.iter().map(|x| x.to_bits()).collect() }
+    Content { peps: o.finish(), npep: db.peptides.len(), frags, minv: db.min_value.iter().map(|x| x.to_bits()).collect(), stored }
 }
 
 fn pool(threads: usize) -> Arc<rayon::ThreadPool> {
@@ -461,7 +539,7 @@ fn exec_threads(t: &mut Toks) -> Option<String> {
         for m in &c.minv {
             fnv(&mut h, &m.to_le_bytes());
         }
-        tail.n(k).n(c.npep).n(ndup).n(nbad).n(h);
+        tail.n(k).n(c.npep).n(ndup).n(nbad).n(h).n(c.stored);
     }
     o.raw("T").n(threads.len()).raw(&tail.finish());
     Some(o.finish())
@@ -491,7 +569,11 @@ fn chunk_build(p: &Parameters, recs: &[(String, String)], k: usize, seed: u64, d
         Some(m @ ("H7" | "G8")) => sim_reorder(&mut all, m == "H7"),
         _ => Parameters::reorder_peptides(&mut all),
     }
-    p.clone().build_from_peptides(all)
+    let mut db = p.clone().build_from_peptides(all);
+    if std::env::var("VERIF_C08_SIM").ok().as_deref() == Some("J") {
+        sim_fold_reduce_index(p, &mut db);
+    }
+    db
 }
 
 /// `reorder_peptides` with (h7) `remove.decoy == keep.decoy` added to the merge test, or (g8) the decoy flag as a
@@ -544,11 +626,15 @@ fn exec_chunks(t: &mut Toks) -> Option<String> {
         }
     }
     let mut sdiff = 0;
+    let (mut fo_shuf, mut fo_pool, mut fo_ksz) = (0, 0, 0);
     let orders = [1usize, 2, 3, 4, 5];
     for &ord in &orders {
         let c = pool(4).install(|| content(&chunk_build(&p, &r.recs, k, seed, drop, ord)));
         if !c.same(&base) {
             sdiff += 1;
+        }
+        if c.stored != base.stored {
+            fo_shuf += 1;
         }
     }
     o.raw("shuf").n(orders.len()).n(sdiff);
@@ -558,6 +644,9 @@ fn exec_chunks(t: &mut Toks) -> Option<String> {
         let c = pool(n).install(|| content(&chunk_build(&p, &r.recs, k, seed, drop, 0)));
         if !c.same(&base) {
             tdiff += 1;
+        }
+        if c.stored != base.stored {
+            fo_pool += 1;
         }
     }
     o.raw("pool").n(pools.len()).n(tdiff);
@@ -573,9 +662,13 @@ fn exec_chunks(t: &mut Toks) -> Option<String> {
             if !c.same(&base) {
                 kdiff += 1;
             }
+            if c.stored != base.stored {
+                fo_ksz += 1;
+            }
         }
     }
     o.raw("ksz").n(nk).n(kdiff);
+    o.raw("ford").n(fo_shuf).n(fo_pool).n(fo_ksz);
     Some(o.finish())
 }
 
@@ -607,11 +700,15 @@ pub fn exec(op: &str, t: &mut Toks) -> Option<String> {
     // metamorphic streams, evaluated on the implementation itself
     let ords = orders(r.recs.len(), r.nperm, r.pseed);
     let mut pdiff = 0;
+    let (mut fo_perm, mut fo_pool, mut fo_rep) = (0, 0, 0);
     for ord in &ords {
         let recs: Vec<(String, String)> = ord.iter().map(|&i| r.recs[i].clone()).collect();
         let c = pool(4).install(|| content(&build(&p, &recs)));
         if !c.same(&base) {
             pdiff += 1;
+        }
+        if c.stored != base.stored {
+            fo_perm += 1;
         }
     }
     o.raw("perm").n(ords.len()).n(pdiff);
@@ -621,6 +718,9 @@ pub fn exec(op: &str, t: &mut Toks) -> Option<String> {
         if !c.same(&base) {
             tdiff += 1;
         }
+        if c.stored != base.stored {
+            fo_pool += 1;
+        }
     }
     o.raw("pool").n(POOLS.len()).n(tdiff);
     let nh = 4;
@@ -628,6 +728,9 @@ pub fn exec(op: &str, t: &mut Toks) -> Option<String> {
     for _ in 0..nh {
         let p2 = parameters(&r);
         let c = pool(4).install(|| content(&build(&p2, &r.recs)));
+        if c.stored != base.stored {
+            fo_rep += 1;
+        }
         if !c.same(&base) {
             hdiff += 1;
             if std::env::var("VERIF_C08_DEBUG").is_ok() {
@@ -640,6 +743,8 @@ pub fn exec(op: &str, t: &mut Toks) -> Option<String> {
         }
     }
     o.raw("hash").n(nh).n(hdiff);
+    // the fragment index AS STORED (vector order + bucket layout): record orders / pools / repeated builds that differ
+    o.raw("ford").n(fo_perm).n(fo_pool).n(fo_rep);
     Some(o.finish())
 }
 
@@ -1348,6 +1453,72 @@ fn gen_chunked(rng: &mut Rng, thorough: bool, emit: &mut dyn FnMut(Case)) {
     }
 }
 
+/// fragment-tie stream: databases with many fragments of EQUAL m/z that belong to DIFFERENT peptides - I/L isomers
+/// (every b and y ion bit-equal), peptides sharing their first 2-3 residues (equal b2, b3) or their tail, targets and
+/// their generated decoys (equal b1 and y(n-1)), missed-cleavage products (share the b ladder of their first
+/// peptide) - with small bucket sizes, so that runs of equal m/z straddle bucket boundaries. What the unstable
+/// sort by m/z and the per-bucket sort by peptide index make of such ties is visible only in the fragment vector
+/// AS STORED (reply tokens `ford`).
+fn tie_fasta(rng: &mut Rng, nrec: usize) -> Vec<(String, String)> {
+    const PRE: &[&str] = &["LE", "IE", "LEA", "IEA", "AG", "AGL", "AGI", "SL"];
+    const MID: &[u8] = b"AGSTVDEQNLI";
+    const SUF: &[&str] = &["LK", "IK", "EK", "LR", "IR", "SK"];
+    let npep = rng.range(4, 9) as usize;
+    let mut peps: Vec<String> = Vec::new();
+    for _ in 0..npep {
+        let mut q = String::from(*rng.pick(PRE));
+        for _ in 0..rng.range(1, 4) {
+            q.push(*rng.pick(MID) as char);
+        }
+        q.push_str(*rng.pick(SUF));
+        peps.push(q.clone());
+        // an I/L isomer of it
+        if rng.chance(1, 2) {
+            let iso: String = q.chars().map(|c| if c == 'L' { 'I' } else if c == 'I' { 'L' } else { c }).collect();
+            peps.push(iso);
+        }
+    }
+    let mut recs = Vec::new();
+    for i in 0..nrec {
+        let nb = rng.range(2, 5) as usize;
+        let mut q = String::new();
+        for _ in 0..nb {
+            q.push_str(rng.pick(&peps[..]).as_str());
+        }
+        recs.push((acc(i), q));
+    }
+    recs
+}
+
+fn gen_ties(rng: &mut Rng, thorough: bool, emit: &mut dyn FnMut(Case)) {
+    let n = if thorough { 200 } else { 18 };
+    for i in 0..n {
+        let nrec = rng.range(3, 7) as usize;
+        let recs = tie_fasta(rng, nrec);
+        let mut r = base_req(rng, recs);
+        r.cleave = s("KR");
+        r.restrict = Some(b'P');
+        r.c_terminal = true;
+        r.semi = false;
+        r.min_len = 4;
+        r.max_len = 40;
+        r.mc = (i % 3) as u8;
+        r.lo = 100.0;
+        r.hi = 8000.0;
+        r.bucket = [2usize, 4, 8, 16, 64][i % 5];
+        r.min_ion = rng.below(2);
+        r.kinds = *rng.pick(&[0b010010usize, 0b010010, 0b111111, 0b010011]);
+        r.gen = i % 4 != 3;
+        r.max_var = 1;
+        if r.vars.len() > 1 {
+            r.vars.truncate(1);
+        }
+        r.nperm = 4;
+        r.frag = true;
+        emit_req(emit, &r, &["fragment_ties_stream"]);
+    }
+}
+
 pub fn gen(rng: &mut Rng, tier: Tier, emit: &mut dyn FnMut(Case)) {
     let thorough = tier == Tier::Thorough;
     directed(emit);
@@ -1437,6 +1608,7 @@ pub fn gen(rng: &mut Rng, tier: Tier, emit: &mut dyn FnMut(Case)) {
         let r = dense_req(rng, m);
         emit_threads(emit, &r, &[tag]);
     }
+    gen_ties(rng, thorough, emit);
     gen_chunked(rng, thorough, emit);
     // separate stream: FASTA-supplied decoys sharing peptides with targets, strict protein-listing clause
     directed_decoy_listing(emit);
